@@ -28,3 +28,83 @@ def controlled(seed):
         npr.default_rng = orig
         np.random.default_rng = orig
         npr.set_state(state)
+
+
+# ---------------------------------------------------------------------------------------------------------------------------------
+# Generators with a controlled bit stream.  A numpy Generator reads its bits through three C function pointers of its BitGenerator;
+# here a PCG64's pointers are replaced (before the Generator copies them) by functions that hand out the PCG64's own words but
+# repeat the previous word at the positions a given pattern marks.  Every Generator method (random, choice, permutation, shuffle,
+# integers, normal ...) then sees that stream.  It stands for the generator states in which two draws coincide: with a real
+# PCG64 such states exist for any pair of positions but cannot be found by sampling seeds (2^-24 per pair of single-precision
+# uniforms, 2^-53 per pair of doubles); code whose contract holds "for the generator it is handed" must not depend on draws being
+# distinct.  With an all-zero pattern the stream is bit-identical to numpy.random.Generator(PCG64(seed)) (asserted in selftest()).
+import ctypes
+
+
+class _BitGenT(ctypes.Structure):
+    _fields_ = [("state", ctypes.c_void_p), ("next_uint64", ctypes.c_void_p), ("next_uint32", ctypes.c_void_p), ("next_double", ctypes.c_void_p), ("next_raw", ctypes.c_void_p)]
+
+
+_F64 = ctypes.CFUNCTYPE(ctypes.c_uint64, ctypes.c_void_p)
+_F32 = ctypes.CFUNCTYPE(ctypes.c_uint32, ctypes.c_void_p)
+_FD = ctypes.CFUNCTYPE(ctypes.c_double, ctypes.c_void_p)
+
+
+class StutterGenerator(np.random.Generator):
+    def __new__(cls, seed, pattern):
+        return super().__new__(cls)
+
+    def __init__(self, seed, pattern):
+        pat = [bool(x) for x in pattern] or [False]
+        if all(pat):
+            pat = pat + [False]  # a stream must move on, or rejection sampling inside numpy would never end
+        n = len(pat)
+        bg = np.random.PCG64(seed)
+        s = _BitGenT.from_address(bg.ctypes.bit_generator.value)
+        state = s.state
+        self.words = 0
+        self.repeats = 0
+
+        def mk(orig):
+            box = [None, 0]
+
+            def f(_):
+                i = box[1]
+                box[1] = i + 1
+                self.words += 1
+                if box[0] is not None and pat[i % n]:
+                    self.repeats += 1
+                    return box[0]
+                box[0] = orig(state)
+                return box[0]
+
+            return f
+
+        self._callbacks = (_F64(mk(_F64(s.next_uint64))), _F32(mk(_F32(s.next_uint32))), _FD(mk(_FD(s.next_double))))
+        s.next_uint64 = ctypes.cast(self._callbacks[0], ctypes.c_void_p).value
+        s.next_uint32 = ctypes.cast(self._callbacks[1], ctypes.c_void_p).value
+        s.next_double = ctypes.cast(self._callbacks[2], ctypes.c_void_p).value
+        super().__init__(bg)
+
+
+def make_rng(seed, stutter=None):
+    """numpy.random.default_rng(seed), or the same PCG64 stream with repeated words when a pattern is given"""
+    if not stutter:
+        return np.random.default_rng(seed)
+    return StutterGenerator(seed, stutter)
+
+
+def stutter_patterns():
+    from hypothesis import strategies as st
+
+    return st.one_of(st.none(), st.none(), st.sampled_from([[0, 1], [0, 0, 1], [0, 1, 1, 0, 0], [0, 0, 0, 0, 1, 0, 0]]), st.lists(st.integers(0, 1), min_size=2, max_size=12))
+
+
+def selftest():
+    a, b = StutterGenerator(5, [0]), np.random.Generator(np.random.PCG64(5))
+    assert np.array_equal(a.random(50), b.random(50)) and np.array_equal(a.permutation(50), b.permutation(50))
+    assert np.array_equal(a.random(7, dtype=np.float32), b.random(7, dtype=np.float32)) and a.repeats == 0 and a.words > 0
+    c = StutterGenerator(5, [0, 1])
+    x = c.random(6)
+    assert x[0] == x[1] and x[2] == x[3] and c.repeats == 3, (x, c.repeats)
+    assert sorted(c.permutation(20).tolist()) == list(range(20))
